@@ -234,6 +234,34 @@ theorem C11_fetch_after_recovery (P : Params) (I : Ideal P) (s : St) (h : Reach 
   exact C11_fetch_succeeds P I _ (C11_restart_reachable P s h true order hord) p v
     (by rw [r2 p]; exact truth_of_index hg)
 
+/-- **Acknowledged ⇒ recoverable, also when wrapped stores fail.**  `Reach` includes the environment step
+`arm` (the k-th next ReceiveBlob of `blobs` / `meta` fails once; the failing ReceiveBlob returns the error,
+a failing packer gives up).  Whenever the ReceiveBlob in flight has run to its end without such an error –
+it is about to acknowledge – the index has its row, and a restart with a wiped index finds the same row in
+the meta store.  (The duplicate fast path acknowledges only what the index already has, which
+`C11_index_recoverable` covers.)  With `index.Set` before the meta write this is false: the harness
+finds it with `fault M 1; recv b; recv b; restart wipe`. -/
+theorem C11_ack_recoverable (P : Params) (I : Ideal P) (s : St) (h : Reach P goodR goodP s)
+    (x : Recv) (hx : s.recv = some x) (hdone : x.rest = []) (hok : s.lastFailed = false)
+    (order : List Bytes) (hord : ∀ n, n ∈ order ↔ has s.metas n = true) :
+    ∃ v, get s.index x.plainBR = some v ∧
+      (restart P goodP true order s).2 = true ∧
+      get (restart P goodP true order s).1.index x.plainBR = some v := by
+  obtain ⟨v, hv⟩ := ack_reach I h x hx hdone hok
+  obtain ⟨r1, r2, _⟩ := restart_spec (inv_reach I h) true order hord
+  exact ⟨v, hv, r1, by rw [r2]; exact truth_of_index hv⟩
+
+/-- a faulted history: the meta write of the second receive fails (nothing acknowledged, the ciphertext is
+an orphan), the retry is acknowledged, and the wiped index is rebuilt in full -/
+example :
+    let P := toyP 100 10000
+    let s1 := (receiveBlob P goodR goodP false {} (toyDigest [1]) [1]).1
+    let f := receiveBlob P goodR goodP false { s1 with failMeta := 1 } (toyDigest [2, 2]) [2, 2]
+    let r := receiveBlob P goodR goodP false f.1 (toyDigest [2, 2]) [2, 2]
+    f.2 = .err ∧ f.1.index.length = 1 ∧ f.1.blobs.length = 2 ∧ f.1.metas.length = 1 ∧
+    r.2 = .sized 2 ∧ r.1.blobs.length = 3 ∧
+    (restart P goodP true (r.1.metas.map (·.1)) r.1).1.index = r.1.index := by decide
+
 example : demo2mid.metas.length = 3 ∧ (demo2mid.jobs.map (·.rest)) = [[.record, .remove]] := by decide
 
 example : Reach (toyP 1 10) goodR goodP demo2mid := .step _ _ demo2_reach (.jobStep demo2 0)
